@@ -136,6 +136,7 @@ impl Monitor for M {
         for (si, (sclass, suffix)) in suffixes.iter().enumerate() {
             let mut buf = bytes.clone();
             buf.extend_from_slice(suffix);
+            buf.shrink_to_fit(); // an allocation of exactly the input's size (sanitizer engines see reads behind it)
             // history: every other case parses the same bytes flagged with the other byte order first
             // (identical raw fields, to be read the other way round); the parse that follows depends on
             // its own input only
